@@ -135,9 +135,21 @@ def run(prop, grp, tier, obligations, undecided, failures, checker_cmds, ev_extr
                    ("unsupported construct / front-end error: " + "; ".join(other)[:400]) if other else
                    "verus produced no result")
             for n in names:
-                if wanted(n):
+                if wanted(n) and not n.startswith("CANARY."):
                     obligations.append({"name": n, "engine": "verus", "backend": "z3", "result": "undecided", "reason": why})
-            undecided.append({"obligation": grp["gen"], "reason": why, "detail": r["stderr"][-2000:]})
+            und_entry = {"obligation": grp["gen"], "reason": why, "detail": r["stderr"][-2000:]}
+            # The changed function fell outside the verifier's reach.  A bounded stand-in (native
+            # evaluation of the same clauses on the real function) may still produce a failing input;
+            # that is reported as a violation found by the bounded check, never as a proof result.
+            if grp.get("pair") and grp["pair"].get("kind") == "search":
+                failures.append({
+                    "prop": prop, "group": grp, "harness": {"name": grp["gen"], "replayable": False},
+                    "failed": [], "obligations": [], "verus": {"unprocessable": why},
+                    "ws": "done", "float_dependent": [], "out_of_reach": True, "undecided_entry": und_entry,
+                    "candidates": [n for n in names if wanted(n) and not n.startswith("CANARY.") and not n.startswith("NIX.")],
+                })
+            else:
+                undecided.append(und_entry)
             return
         # vacuity canaries must fail; they are not obligations
         canaries = [n for n in names if n.startswith("CANARY.")]
